@@ -43,6 +43,15 @@ def seed_docs(hs, A, tier, rng):
             [{'a': G(version='3.0', columns=[('x', []), ('y', [])]), 'b': [[1], {}]}])
         add('bin2', '2.0', [('a', [])], [{'a': hs.Bin('text/plain')}])
         add('neg_exp', '3.0', [('a', []), ('b', [])], [{'a': -1.5e-07, 'b': float('inf')}])
+    # 3.0-only constructs under versions that are 2.0 / pre-3.0 in other spellings (abstract documents written
+    # directly: Grid itself refuses to hold them); the seeds themselves are judged (mutation "none")
+    one = [5, absval.dec_of_float(1.0)]
+    only3 = {'na': [2], 'list': [16, [one]], 'dict': [17, [[absval.cps('k'), one]]], 'xstr': [11, absval.cps('Xs'), absval.cps('p')],
+             'grid': [18, absval.cps('3.0'), [], [[absval.cps('x'), []]], [[one]]]}
+    for ver in (['2.0.0', '2'] if tier == 'quick' else ['2.0.0', '2', '1.0', '2.0.0.0', '2.0']):
+        for kind, v in sorted(only3.items()):
+            docs.append([[18, absval.cps(ver), [], [[absval.cps('a'), []], [absval.cps('b'), []]], [[v, [7, absval.cps('x')]]]]])
+            names.append('only3_%s_under_%s' % (kind, ver))
     # a two-grid document
     g1 = G(version='2.0', columns=[('a', [])]); g1.extend([{'a': 1}])
     g2 = G(version='3.0', columns=[('b', [])]); g2.extend([{'b': [2]}])
